@@ -188,6 +188,14 @@ def gen_pair_spec(rng, kind):
     else:
         spec.update(max_t=rng.choice([3, 6]), max_trials=rng.randint(3, 10))
     spec["steps"] = rng.randint(30, 400)
+    if kind in ("sync_hb", "dehb"):
+        # trials failing while pending in a rung (on_trial_error), same trial and same moment in both modes
+        spec["fail_prob"] = rng.choice([0.0, 0.03, 0.08, 0.15])
+    if kind == "moasha":
+        # sparse reports (a trial may jump over rung levels) and trials that finish with on_trial_complete carrying a
+        # result at a resource they have not reported before
+        spec["max_jump"] = rng.choice([1, 1, 2, 3, 4])
+        spec["complete_prob"] = rng.choice([0.0, 0.1, 0.25])
     if kind in ("rea", "morea"):
         spec["steps"] = 2 * spec["max_trials"] * (spec["max_t"] + 1) + 40
     return spec
@@ -360,9 +368,29 @@ def run_one(spec, variant, overrides, limit=None):
                 break
             continue
         tid = rng.choice(running)
-        resource[tid] += 1
+        if spec.get("fail_prob") and rng.random() < spec["fail_prob"]:
+            running.remove(tid)
+            try:
+                with contextlib.redirect_stdout(sink):
+                    sch.on_trial_error(trials[tid])
+            except Exception as e:
+                trace.append(("raised", "error", tid, type(e).__name__))
+                break
+            trace.append(("failed", tid, resource[tid]))
+            continue
+        resource[tid] += 1 if spec.get("max_jump", 1) == 1 else rng.randint(1, spec["max_jump"])
         r = resource[tid]
         result = result_of(spec, variant, overrides, tid, r)
+        if spec.get("complete_prob") and r < max_t and rng.random() < spec["complete_prob"]:
+            running.remove(tid)
+            try:
+                with contextlib.redirect_stdout(sink):
+                    sch.on_trial_complete(trials[tid], dict(result))
+            except Exception as e:
+                trace.append(("raised", "complete", tid, type(e).__name__))
+                break
+            trace.append(("completed", tid, r))
+            continue
         try:
             with contextlib.redirect_stdout(sink):
                 dec = sch.on_trial_result(trials[tid], dict(result))
@@ -400,8 +428,8 @@ def exact_quantile(vals, qq):
 
 def is_tie_boundary(spec, trace, k, overrides):
     """Only for type stopping / rush_stopping with one bracket: is the report at trace[k] a decision whose exact
-    cutoff (rational arithmetic over the metrics reported at that rung level so far) is within 1e-9 (relative)
-    of the reported metric?"""
+    cutoff (rational arithmetic over the metrics reported at that rung level so far) is within round-off
+    (8 (n+1) half-ulps of the largest |metric|) of the reported metric?"""
     ev = trace[k]
     if ev[0] != "result" or not spec.get("tie_prone"):
         return False
@@ -424,7 +452,7 @@ def is_tie_boundary(spec, trace, k, overrides):
     m = Fraction(metric_of(spec, overrides, tid, r))
     cut = exact_quantile(vals, Fraction(r, nxt))
     scale = max(abs(Fraction(v)) for v in vals)
-    return abs(m - cut) <= Fraction(1, 10 ** 9) * scale
+    return abs(m - cut) <= Fraction(8 * (len(vals) + 1), 2 ** 53) * scale
 
 
 def run_pair(ctx, spec, overrides=None):
@@ -439,6 +467,7 @@ def run_pair(ctx, spec, overrides=None):
         a, b, k = a[:k], b[:k], None
     n_dec = sum(1 for e in a if e[0] == "result")
     n_nontrivial = sum(1 for e in a if e[0] == "result" and e[3] != "CONTINUE") + \
+        sum(1 for e in a if e[0] in ("failed", "completed")) + \
         sum(1 for e in a if e[0] == "suggest" and e[1] and e[1][0] == "resume")
     if spec["sched"] in ("rea", "morea"):  # suggestions by mutation of the best sampled parent (population full)
         n_nontrivial = max(0, sum(1 for e in a if e[0] == "suggest" and e[1]) - spec["population_size"] - spec["workers"])
@@ -648,7 +677,8 @@ def unit_cases2(ctx, replay):
             style = rng.choice(["list", "list", "str", "none"])
             modes = [rng.choice(["min", "max"]) for _ in range(nmet)] if style == "list" else (
                 rng.choice(["min", "max"]) if style == "str" else None)
-            cases.append(dict(kind="mo", modes=modes, vals=[[rng.uniform(-3, 3) for _ in range(nmet)] for _ in range(2)]))
+            cases.append(dict(kind="mo", modes=modes, vals=[[rng.uniform(-3, 3) for _ in range(nmet)] for _ in range(2)],
+                              complete_first=rng.random() < 0.5))
     elif replay.get("kind") == "mo":
         cases = [replay]
     terms = []
@@ -661,7 +691,11 @@ def unit_cases2(ctx, replay):
             for t in range(2):
                 tr = U.mk_trial(t, {"x": 0.5})
                 sch.on_trial_add(tr)
-                sch.on_trial_result(tr, dict({"epoch": 1}, **{"m%d" % i: c["vals"][t][i] for i in range(nmet)}))
+                res = dict({"epoch": 1}, **{"m%d" % i: c["vals"][t][i] for i in range(nmet)})
+                if t == 0 and c.get("complete_first"):
+                    sch.on_trial_complete(tr, res)  # the trial finishes with a result it has not reported before
+                else:
+                    sch.on_trial_result(tr, res)
         ctx.count(("mo", c), nontrivial=isinstance(c["modes"], list) and len(set(c["modes"])) == 2)
         ctx.h("unit_kind", "moasha_metric_dict")
         if not rec.calls or len(rec.calls[-1]) != 2:
@@ -672,9 +706,11 @@ def unit_cases2(ctx, replay):
         for t in range(2):
             want = [v if md == "min" else -v for v, md in zip(c["vals"][t], per)]
             if rec.calls[-1][t] != want:
-                ctx.violation("property", "MOASHA(mode=%r) hands %r to the priority function for reported %r" % (
-                    c["modes"], rec.calls[-1][t], c["vals"][t]), case=c,
-                    signature=dict(scheduler="MOASHA", defect="metric_sign"))
+                ctx.violation("property", "MOASHA(mode=%r) hands %r to the priority function for %s %r" % (
+                    c["modes"], rec.calls[-1][t], "the result passed to on_trial_complete" if (t == 0 and c.get("complete_first"))
+                    else "reported", c["vals"][t]), case=c,
+                    signature=dict(scheduler="MOASHA", defect="metric_sign",
+                                   via="on_trial_complete" if (t == 0 and c.get("complete_first")) else "on_trial_result"))
             terms.append("((%s, %s, %s) : mo_case)" % (lst([blit(md == "min") for md in per]),
                                                       lst([q(v) for v in c["vals"][t]]), lst([q(v) for v in rec.calls[-1][t]])))
     if terms:
@@ -929,6 +965,8 @@ def run(ctx, replay=None):
         ctx.h("pair_sched", spec["sched"] + (":mode_to_" + spec["mode_to"] if "mode_to" in spec else ""))
         ctx.h("pair_decisions", spec["sched"], n_dec)
         ctx.h("pair_nontrivial_events", spec["sched"], n_nontrivial)
+        ctx.h("pair_failures_injected", spec["sched"], sum(1 for e in a if e[0] == "failed"))
+        ctx.h("pair_completes_with_new_result", spec["sched"], sum(1 for e in a if e[0] == "completed"))
         if a and a[-1][0] == "raised":
             ctx.h("pair_raised_in_both_modes", "%s:%s" % (spec["sched"], a[-1][3]))
         if boundary:
@@ -942,5 +980,5 @@ def run(ctx, replay=None):
                                event=(ea or eb or ["?"])[0]))
         elif n_pairs <= 2:
             ctx.sample(dict(kind="pair", spec=spec, events=len(a), first=[list(e) for e in a[:6]]))
-    ctx.notes.append("paired runs: %d, truncated at a Boundary decision (exact cutoff within 1e-9 of the metric; only possible "
+    ctx.notes.append("paired runs: %d, truncated at a Boundary decision (exact cutoff within round-off, 8(n+1) half-ulps, of the metric; only possible "
                      "for the tie-prone stopping configurations): %d" % (n_pairs, n_boundary))
